@@ -38,7 +38,8 @@ struct Act {
 };
 struct Scenario {
     bool strict = false, ignoreOtherCalls = false, readReturn = false, outParam = false;
-    bool scoped = false;   // function index 1 is "f" in the mock scope "s" (instead of the global function "g")
+    int scoped = 0;        // 1: function index 1 is "f" in the mock scope "s" (instead of the global function "g");
+                           // 2: function 0 is "f" in scope "s" and function 1 is "f" in scope "t" (two named scopes, global mock unused)
     std::vector<Exp> exps;
     std::vector<Act> acts;
 };
@@ -46,7 +47,7 @@ struct Scenario {
 inline const char* FN[] = {"f", "g"};
 inline const char* PN[] = {"p", "q"};
 
-inline const char* fn_name(const Scenario& s, int fn) { return s.scoped ? (fn ? "s::f" : "f") : FN[fn]; }
+inline const char* fn_name(const Scenario& s, int fn) { return s.scoped == 2 ? (fn ? "t::f" : "s::f") : s.scoped ? (fn ? "s::f" : "f") : FN[fn]; }
 inline std::string render(const Scenario& s) {
     std::string o;
     if (s.strict) o += "strictOrder; ";
@@ -245,7 +246,10 @@ inline Expected reference(const Scenario& s) {
         left[m]--; done[m]++; r.consumed[c] = m; order.push_back(m);
     }
     int end = (int)s.acts.size();
-    for (int scope = 0; scope < 2; scope++) if (pending_diag[scope] != PASS) return fail(pending_diag[scope], pending_call[scope], end);
+    // checkExpectations finalises the global mock's pending call first, then the named scopes in creation order
+    int first = 0;
+    if (s.scoped == 2) first = !s.exps.empty() ? s.exps[0].fn : !s.acts.empty() ? s.acts[0].fn : 0;
+    for (int k = 0; k < 2; k++) { int scope = k ? 1 - first : first; if (pending_diag[scope] != PASS) return fail(pending_diag[scope], pending_call[scope], end); }
     for (size_t i = 0; i < nE; i++) if (left[i] > 0) return fail(NOT_FULFILLED, end, end);
     if (s.strict) {
         std::vector<int> expanded; for (size_t i = 0; i < nE; i++) for (int k = 0; k < s.exps[i].count; k++) expanded.push_back((int)i);
